@@ -69,24 +69,23 @@ def run(ctx):
     if not neg.violation:
         raise vlib_error('negative control passed: the model does not detect two consumers racing in getUpdate()')
 
-    # E2 + E3 ---------------------------------------------------------------------------------
+    # E2 (cover replay) and E4 (random), then E3: ONE TLC validation of all recorded traces -------
     sched = os.path.join(ctx.work, 'cover.sched')
     ctx.cov['cover_graph'] = ctx.walker(dot, sched)
+    # the C++17 builds replay the whole cover set in the thorough tier, the first 100 schedules in quick
+    sched_short = os.path.join(ctx.work, 'cover_short.sched')
+    with open(sched) as f, open(sched_short, 'w') as o:
+        o.writelines(f.readlines()[:100])
     parts, execs = [], 0
     for name, exe, payload in builds:
         tr = os.path.join(ctx.work, 'cover_%s.ndjson' % name)
-        tot, _ = ctx.driver(exe, ['--out', tr, '--prog', COVER_PROG, '--payload', payload, '--schedules', sched],
+        use = sched if (thorough or name == 'cxx14') else sched_short
+        tot, _ = ctx.driver(exe, ['--out', tr, '--prog', COVER_PROG, '--payload', payload, '--schedules', use],
                             WHAT, label='cover replay ' + name)
         parts.append(tr)
         execs += tot.get('completed', 0)
-    tr = cat(os.path.join(ctx.work, 'cover_all.ndjson'), parts)
-    if usable(tr):
-        ctx.validate(SPEC, 'AsyncReqTrace.tla', 'AsyncReqTrace.cfg', tr, WHAT, executions=execs, label='cover replay')
     ctx.sample_trace(parts[0], 16)
-
-    # E4 + E3 ---------------------------------------------------------------------------------
     n = 2500 if thorough else 150
-    parts, execs = [], 0
     for name, exe, payload in builds:
         for pct in (0, 3):
             tr = os.path.join(ctx.work, 'rand_%s_p%d.ndjson' % (name, pct))
@@ -95,10 +94,11 @@ def run(ctx):
                                 WHAT, label='random %s pct%d' % (name, pct))
             parts.append(tr)
             execs += tot.get('completed', 0)
-    tr = cat(os.path.join(ctx.work, 'rand_all.ndjson'), parts)
-    if usable(tr):
-        ctx.validate(SPEC, 'AsyncReqTrace.tla', 'AsyncReqTrace.cfg', tr, WHAT, executions=execs, label='random')
     ctx.sample_trace(parts[-1], 10)
+    tr = cat(os.path.join(ctx.work, 'all.ndjson'), parts)
+    if usable(tr):
+        ctx.validate(SPEC, 'AsyncReqTrace.tla', 'AsyncReqTrace.cfg', tr, WHAT, executions=execs,
+                     label='cover replay + random (3 builds)', timeout=1800)
     ctx.assumptions += [
         'TLA+ interleaving semantics are sequentially consistent (weak-memory effects are C10)',
         'each access to the non-atomic obj_ (emplace / move-out) is one indivisible step; the invariant '
